@@ -78,11 +78,58 @@ def pair_family(tier, seed):
                 cands.append((a, b))
     rng.shuffle(cands)
     pairs += cands[:400] if tier == "thorough" else cands[:25]
+    # sizes read off the implementation (vf/props/sizes.py): none on the pinned tree
+    from vf.props import sizes
+    for s_ in sizes.sizes_around():
+        if s_ >= 2:
+            a = [str(i % 7 + 1) for i in range(s_)]
+            b = [str(int(a[0]) + 5)] + a[1:]
+            pairs.append((a, b))
     out = []
     for a, b in pairs:
         if ordered(a, b):
             out.append((a, b))
     return out
+
+
+def grouped_pair_check(out, tally, ra, rb, a, b, wa, wb, timeout_ms):
+    """long vectors: one query per leaf of the first run against the disjunction of all later leaves of the second"""
+    for run in (ra, rb):
+        for p in run.paths:
+            if isinstance(p.outcome, Unsup):
+                out["status"] = "inconclusive"
+                out["note"] = "unsupported: " + p.outcome.reason
+                return
+    A = [p for p in ra.paths if isinstance(p.outcome, Return)]
+    B = [p for p in rb.paths if isinstance(p.outcome, Return)]
+    if not A or not B:
+        out["status"] = "inconclusive"
+        out["note"] = "no returning path for valid weights"
+        return
+    short = min(timeout_ms, 20000)
+    for pa in A:
+        i = pa.outcome.value
+        ka = [v for t, v in pa.recorded if t == "pos_k"][0]
+        later = []
+        for pb in B:
+            if pb.outcome.value > i:
+                kb = [v for t, v in pb.recorded if t == "pos_k"][0]
+                later.append(z3.And(*[z3.substitute(c, (kb, ka)) for c in pb.conds]) if pb.conds else z3.BoolVal(True))
+        if not later:
+            continue
+        r, m = common.check(tally, list(pa.conds) + [z3.Or(*later)], short, _retry=False,
+                            label="C10 monotone (%d groups): unit moves from group %d to a later group" % (len(a), i), keep_sample=(i == 0))
+        if r == "unknown":
+            out["status"] = "inconclusive"
+            out["note"] = "unknown on monotonicity (%d groups)" % len(a)
+        elif r == "sat":
+            kv = m.eval(ka, model_completion=True).as_long()
+            out["witnesses"].append({"kind": "monotone", "weights_a": enc(wa), "weights_b": enc(wb), "position_k": kv,
+                                     "why": "a unit at hash position k=%d is in group %d under the first of two %d-group weight vectors "
+                                            "but in a later group under the second (first weight raised)" % (kv, i, len(a)), "plain": ""})
+            if len(out["witnesses"]) >= 2:
+                return
+    out["reach"] += 1
 
 
 def check_pair(item):
@@ -98,6 +145,10 @@ def check_pair(item):
     out["paths"] = len(ra.paths) + len(rb.paths)
     out["encoded"] = ra.encoded_digest()
     out["stubs"] = ra.notes
+    if n > 8:
+        grouped_pair_check(out, tally, ra, rb, a, b, wa, wb, timeout_ms)
+        out["tally"] = tally
+        return out
     for pa in ra.paths:
         for pb in rb.paths:
             for p in (pa, pb):
